@@ -1,4 +1,5 @@
 import EsbuildModel.Lemmas.Pieces
+import EsbuildModel.Lemmas.ChunkHash
 /-! # C18 — hashed names identify content: property theorems -/
 namespace EsbuildModel.C18
 open EsbuildModel.Pieces
@@ -16,5 +17,70 @@ example : preimage [[97], [98, 99]] ≠ preimage [[97, 98], [99]] := by decide
 /-- the pieces the hash is computed over partition the chunk's intermediate output exactly -/
 theorem pieces_partition_output (pre : List Nat) (nFiles nChunks fuel : Nat) (out : List Nat) :
     rejoin (breakOutput pre nFiles nChunks fuel out) = out := rejoin_break pre nFiles nChunks fuel out
+
+
+/-! ## The final hash of a chunk covers everything it references (appendIsolatedHashesForImportedChunks) -/
+open EsbuildModel.ChunkHash in
+/-- For every chunk graph whose import indices are in range the traversal that feeds the final hash of
+chunk `i` terminates without an out-of-range access, feeds every chunk at most once, and feeds the block
+(asset paths + isolated hash) of EVERY chunk that `i` imports directly or transitively — cycles
+included. -/
+theorem final_hash_covers_dependencies (cs : List Chunk) (hwf : WF cs) (i : Nat) (hi : i < cs.length) :
+    ∃ o, order cs i = some o ∧ o.Nodup ∧ ∀ d, Reach cs i d → d ∈ o := by
+  obtain ⟨st', e, p, hiv⟩ := visit_post hwf (cs.length + 1) i ⟨[], []⟩
+    ⟨List.nodup_nil, by simp⟩ hi (by simp)
+  obtain ⟨new, eo, nd, m⟩ := p.ord
+  refine ⟨st'.order, by simp [order, e], ?_, ?_⟩
+  · simp only [List.nil_append] at eo
+    rw [eo]; exact nd
+  · intro d hd
+    have hv : d ∈ st'.visited := by
+      induction hd with
+      | refl => exact hiv
+      | step _ hj ih => exact p.closed _ ih (by simp) _ hj
+    simp only [List.nil_append] at eo
+    rw [eo]
+    exact (m d).2 ⟨hv, by simp⟩
+
+open EsbuildModel.ChunkHash in
+/-- If two builds have the same chunk graph and the same asset paths, and the isolated hash (of fixed
+width) of ANY chunk that `i` imports directly or transitively differs, then the bytes fed to `i`'s final
+hash differ: a change anywhere below a chunk reaches the pre-image of its name. -/
+theorem dependency_change_changes_preimage (cs cs' : List Chunk)
+    (himp : cs.map (·.imports) = cs'.map (·.imports))
+    (hassets : cs.map (·.assets) = cs'.map (·.assets))
+    (hwidth : cs.map (·.iso.length) = cs'.map (·.iso.length))
+    (hwf : WF cs) (i d : Nat) (hi : i < cs.length) (hreach : Reach cs i d)
+    (hdiff : (cs[d]?).map (·.iso) ≠ (cs'[d]?).map (·.iso)) :
+    finalPreimage cs i ≠ finalPreimage cs' i := by
+  obtain ⟨o, eo, _, hcov⟩ := final_hash_covers_dependencies cs hwf i hi
+  have eo' : order cs' i = some o := by
+    have hl : cs.length = cs'.length := by simpa using congrArg List.length himp
+    simp only [order] at eo ⊢
+    rw [← hl, ← visit_congr himp]; exact eo
+  simp only [finalPreimage, eo, eo', Option.map_some, ne_eq, Option.some.injEq, blocks]
+  intro h
+  have hget : ∀ (x : Nat) {β : Type} (f : Chunk → β), cs.map f = cs'.map f → (cs[x]?).map f = (cs'[x]?).map f := by
+    intro x β f hf
+    have := congrArg (fun l => l[x]?) hf
+    simpa using this
+  have hblk := flatMap_eq_of_length _ _ o (by
+    intro x _
+    have ha := hget x _ hassets
+    have hw := hget x _ hwidth
+    cases h1 : cs[x]? <;> cases h2 : cs'[x]? <;> simp [h1, h2] at ha hw ⊢
+    simp [block, ha, hw]) h d (hcov d hreach)
+  have ha := hget d _ hassets
+  cases h1 : cs[d]? <;> cases h2 : cs'[d]? <;> simp [h1, h2] at ha hdiff hblk
+  simp only [block, ha] at hblk
+  exact hdiff (List.append_cancel_left hblk)
+
+/-- non-vacuity: a cycle 0 → 1 → 2 → 0 plus a shared chunk 3 with an asset; every hypothesis holds, the
+order is the post-order, and changing chunk 2's isolated hash changes chunk 0's pre-image. -/
+example :
+    let cs : List ChunkHash.Chunk := [⟨[1, 3], [], [10]⟩, ⟨[2], [], [11]⟩, ⟨[0, 3], [[7, 7]], [12]⟩, ⟨[], [], [13]⟩]
+    ChunkHash.order cs 0 = some [3, 2, 1, 0] ∧
+    ChunkHash.finalPreimage cs 0 = some [13, 2, 0, 0, 0, 7, 7, 12, 11, 10] := by
+  decide
 
 end EsbuildModel.C18
